@@ -118,6 +118,8 @@ pub enum Term {
 
 impl Eval for Term {
     fn eval<R: PathResolver>(&self, context: &EvalContext<R>) -> bool {
+        #[cfg(feature = "verif-hooks")]
+        crate::verif_hooks::tick("filter::Term::eval");
         match self {
             Term::Parens(parens) => parens.eval(context),
             Term::Has(has) => has.eval(context),
